@@ -587,6 +587,15 @@ def q4(run, project):
     else:
         run.ob("Q4", ok, "attribute rows: path + PathNode(attr), no type, no hex column", "attribute row shape changed", module=mod,
                node=rows[0] if rows else pa, func="pretty_attrs", construct="attribute row")
+        # Q10 (= C17-M2, rows): "attribute words additionally with their bit rows": what the rows built in place show - one row
+        # per mask, the value's bits under the mask's ones, padded to the word's width - is decided by folding pretty_attrs
+        # over every attribute type of the layout
+        from ..report import RuleView
+        from . import c17
+        try:
+            c17.m2_rows(RuleView(run, "M2", "Q10"), project, ctx.layout(project))
+        except AnalysisError as ex:
+            run.info(f"Q10: the bit rows could not be folded ({ex}); not judged here (C17 reports it)")
     # attribute rows only from the main loop, after the event's own row, for MarshalEvents with attributes()
     calls = []
     for q, fn in mod.functions().items():
